@@ -20,7 +20,7 @@ def lf(x):
 
 
 def lflist(xs):
-    return "[" + ", ".join(lf(x) for x in xs) + "]"
+    return "([" + ", ".join(lf(x) for x in xs) + "] : List Float)"
 
 
 PRE = '''import TracklibVerif.Gen.Geometry
@@ -28,15 +28,34 @@ import TracklibVerif.Gen.ObsTime
 import TracklibVerif.Gen.SpatialIndex
 import TracklibVerif.Gen.Raster
 import TracklibVerif.Gen.ObsCoords
+import TracklibVerif.Gen.Utils
+import TracklibVerif.Gen.Obs
+import TracklibVerif.Gen.Analytics
+import TracklibVerif.Gen.Track
+import TracklibVerif.Gen.Interpolation
 import TracklibVerif.Model.Geo
 open TV TV.Py
 def FT := TV.Geo.floatTrig
 instance : IntCast Float := ⟨Float.ofInt⟩
 def fFloor (x : Float) : Int := (Float.floor x).toInt64.toInt
 def fTrunc (x : Float) : Int := x.toInt64.toInt
+def fTruncP (x : Float) : Int := x.toInt64.toInt
 
 def sf (x : Float) : String := if x.isNaN then "nan" else toString x.toBits
-def se : Err → String | .zerodiv => "err:zerodiv" | .index => "err:index" | .type => "err:type" | .unbound => "err:unbound" | .exit => "err:exit"
+def se : Err → String | .zerodiv => "err:zerodiv" | .index => "err:index" | .type => "err:type" | .unbound => "err:unbound" | .exit => "err:exit" | .value => "err:value" | .fuel => "err:fuel"
+def NANF : Float := 0.0 / 0.0
+def INFF : Float := 1.0 / 0.0
+def r8 : M (Int × Int × Int × Int × Int × Int × Int × Int) → String
+  | .ok v => s!"{v.1} {v.2.1} {v.2.2.1} {v.2.2.2.1} {v.2.2.2.2.1} {v.2.2.2.2.2.1} {v.2.2.2.2.2.2.1} {v.2.2.2.2.2.2.2}" | .error e => se e
+def r4i : M (Float × Float × Float × Int) → String
+  | .ok v => sf v.1 ++ " " ++ sf v.2.1 ++ " " ++ sf v.2.2.1 ++ " " ++ toString v.2.2.2 | .error e => se e
+def rcells : M (List (Int × Int)) → String
+  | .ok v => " ".intercalate (v.map fun c => toString c.1 ++ "," ++ toString c.2) | .error e => se e
+/-- a resampled track: X Y Z of every observation, its time component stamped by the TRANSLATED readUnixTime -/
+def rtrack : M (List (Float × Float × Float × Float)) → String
+  | .ok v => " ".intercalate (v.map fun o => sf o.1 ++ "," ++ sf o.2.1 ++ "," ++ sf o.2.2.1 ++ "," ++
+      (r8 (Gen.ObsTime.ObsTime_readUnixTime fTruncP 100000 o.2.2.2)).replace " " ":")
+  | .error e => se e
 def r1 : M Float → String | .ok v => sf v | .error e => se e
 def r2 : M (Float × Float) → String | .ok v => sf v.1 ++ " " ++ sf v.2 | .error e => se e
 def r3 : M (Float × Float × Float) → String | .ok v => sf v.1 ++ " " ++ sf v.2.1 ++ " " ++ sf v.2.2 | .error e => se e
@@ -55,6 +74,127 @@ def pf(x):
 def perr(ex):
     return {"ZeroDivisionError": "err:zerodiv", "IndexError": "err:index", "TypeError": "err:type",
             "UnboundLocalError": "err:unbound"}.get(type(ex).__name__, "err:" + type(ex).__name__)
+
+
+def more_tests(a, rng, tests, NS):
+    """loops, computed indices, records (second generation of the translator)"""
+    with contextlib.redirect_stdout(io.StringIO()):
+        import tracklib.util.geometry as G
+        import tracklib.core.utils as U
+        import tracklib.algo.analytics as AN
+        import tracklib.algo.interpolation as IP
+        from tracklib.core.obs_time import ObsTime
+        from tracklib.core.obs_coords import ENUCoords
+        from tracklib.core.obs import Obs
+        from tracklib.core.track import Track
+        from tracklib.core.spatial_index import SpatialIndex
+    nan, inf = float("nan"), float("inf")
+    stamp = lambda t: "%d %d %d %d %d %d %d %d" % (t.year, t.month, t.day, t.hour, t.min, t.sec, t.ms, t.zone)
+    n = max(20, a.n // 3)
+    # ---- C03
+    for _ in range(n):
+        e = rng.choice([0.0, 86399.999, 951782400.0, 951868799.5, 1e9 + 0.123, rng.uniform(0, 4.1e9), float(rng.randint(0, 2 ** 31)),
+                        rng.uniform(0, 1e8), 68256000.0 + rng.randint(-2, 2), -1.0, rng.uniform(-1e5, 0)])
+        tests.append(("readUnixTime", "r8 (Gen.ObsTime.ObsTime_readUnixTime fTrunc 1000 %s)" % lf(e), lambda e=e: ObsTime.readUnixTime(e), stamp))
+        y, mo = rng.choice([rng.randint(1960, 2110), 1970, 2000, 2100]), rng.choice([rng.randint(1, 12), 13, 14, 0, 2, 3])
+        f7 = (y, mo, rng.randint(1, 31), rng.randint(0, 23), rng.randint(0, 59), rng.randint(0, 59), rng.randint(0, 999))
+        tests.append(("toAbsTime", "r1 (Gen.ObsTime.ObsTime_toAbsTime %s)" % " ".join("(%d)" % v for v in f7),
+                      lambda f7=f7: ObsTime(*f7).toAbsTime(), pf))
+    # ---- C19
+    vals = [nan, 0.0, -0.0, 1.0, -1.0, 2.5, 7.0, 3.0, inf, -inf, 1e-9, 1e9]
+    for _ in range(n):
+        l = [rng.choice(vals + [rng.uniform(-50, 50)]) for _ in range(rng.randint(0, 8))]
+        if rng.random() < 0.15:
+            l = [nan] * rng.randint(1, 4)
+        L = lflist(l)
+        tests.append(("co_sum", "r1 (Gen.Utils.co_sum %s)" % L, lambda l=l: U.co_sum(list(l)), pf))
+        tests.append(("co_min", "r1 (Gen.Utils.co_min NANF %s)" % L, lambda l=l: U.co_min(list(l)), pf))
+        tests.append(("co_max", "r1 (Gen.Utils.co_max NANF %s)" % L, lambda l=l: U.co_max(list(l)), pf))
+        tests.append(("co_count", "ri (Gen.Utils.co_count %s)" % L, lambda l=l: U.co_count(list(l)), str))
+        tests.append(("co_avg", "r1 (Gen.Utils.co_avg NANF %s)" % L, lambda l=l: U.co_avg(list(l)), pf))
+        tests.append(("co_median", "r1 (Gen.Utils.co_median NANF fTrunc %s)" % L, lambda l=l: U.co_median(list(l)), pf))
+        x = rng.choice(vals)
+        tests.append(("isnan", "rb (Gen.Utils.isnan %s)" % lf(x), lambda x=x: U.isnan(x), lambda v: "true" if v else "false"))
+    # ---- C20 / C10
+    for _ in range(n):
+        k = rng.randint(0, 6)
+        X = [float(rng.randint(-4, 4)) if rng.random() < 0.6 else rng.uniform(-5, 5) for _ in range(k)]
+        Y = [float(rng.randint(-4, 4)) if rng.random() < 0.6 else rng.uniform(-5, 5) for _ in range(k)]
+        if k > 1 and rng.random() < 0.3:
+            j = rng.randrange(k - 1)
+            X[j + 1], Y[j + 1] = X[j], Y[j]
+        if rng.random() < 0.15:
+            Y = Y[:-1] if Y and rng.random() < 0.5 else Y + [1.0]
+        x, y = rng.choice([rng.uniform(-6, 6), float(rng.randint(-4, 4)), inf]), rng.uniform(-6, 6)
+        tests.append(("proj_polyligne", "r4i (Gen.Geometry.proj_polyligne INFF Float.sqrt %s %s %s %s)" % (lflist(X), lflist(Y), lf(x), lf(y)),
+                      lambda X=X, Y=Y, x=x, y=y: G.proj_polyligne(list(X), list(Y), x, y),
+                      lambda v: "%s %s %s %d" % (pf(v[0]), pf(v[1]), pf(v[2]), v[3])))
+    # ---- C08
+    for _ in range(n):
+        cs, ls = rng.randint(1, 5), rng.randint(1, 5)
+        pt = lambda: [rng.choice([rng.uniform(-1, 6), rng.randint(0, 5) + 0.5, float(rng.randint(0, 5))]) for _ in range(rng.choice([2, 2, 2, 2, 1, 3]))]
+        c1, c2 = pt(), pt()
+        tests.append(("__cellsCrossSegment", "rcells (Gen.SpatialIndex.SpatialIndex_cellsCrossSegment fFloor (%d) (%d) %s %s)" % (cs, ls, lflist(c1), lflist(c2)),
+                      lambda cs=cs, ls=ls, c1=c1, c2=c2: SpatialIndex._SpatialIndex__cellsCrossSegment(NS(csize=cs, lsize=ls), c1, c2),
+                      lambda v: " ".join("%d,%d" % c for c in v)))
+    # ---- tracks: C17, C04, C05
+    def mk_track(k, sorted_t=True, pause=False):
+        ts, t = [], rng.choice([0.0, 1e6, 1.5e9]) + rng.randint(0, 1000)
+        for _ in range(k):
+            ts.append(t)
+            t += rng.choice([1.0, 2.0, 0.5, 10.0, 0.0 if pause else 3.0, rng.uniform(0.001, 30)])
+        if not sorted_t:
+            rng.shuffle(ts)
+        pts, last = [], (0.0, 0.0)
+        for _ in range(k):
+            p = last if (pause and rng.random() < 0.2) else (float(rng.randint(-20, 20)) if rng.random() < 0.5 else rng.uniform(-30, 30), rng.uniform(-30, 30))
+            last = p
+            pts.append((p[0], p[1], rng.choice([0.0, rng.uniform(0, 100)])))
+        obs = [Obs(ENUCoords(*p), ObsTime.readUnixTime(t)) for p, t in zip(pts, ts)]
+        tr = Track(obs)
+        recs = [(o.position.E, o.position.N, o.position.U, o.timestamp.toAbsTime()) for o in obs]
+        return tr, recs
+    ltrack = lambda recs: "([" + ", ".join("(%s, %s, %s, %s)" % tuple(lf(v) for v in r) for r in recs) + "] : List (Float × Float × Float × Float))"
+    for _ in range(n):
+        tr, recs = mk_track(rng.randint(0, 6), pause=True)
+        i = rng.randint(-len(recs) - 2, len(recs) + 2)
+        tests.append(("ds", "r1 (Gen.Analytics.analytics_ds FT.sqrt FT.pow %s (%d))" % (ltrack(recs), i), lambda tr=tr, i=i: float(AN.ds(tr, i)), pf))
+        tests.append(("speed", "r1 (Gen.Analytics.analytics_speed NANF FT.sqrt FT.pow %s (%d))" % (ltrack(recs), i), lambda tr=tr, i=i: AN.speed(tr, i), pf))
+    for _ in range(n):
+        k = rng.randint(0, 12)
+        keys = sorted(rng.randint(0, 30) for _ in range(k)) if rng.random() < 0.8 else [rng.randint(0, 30) for _ in range(k)]
+        q = rng.randint(-2, 33)
+        def ins(keys=keys, q=q):
+            tr = Track([Obs(ENUCoords(0.0, 0.0, 0.0), ObsTime.readUnixTime(float(1000 + v))) for v in keys])
+            return tr._Track__getInsertionIndex(ObsTime.readUnixTime(float(1000 + q)))
+        tests.append(("__getInsertionIndex", "ri (Gen.Track.Track_getInsertionIndex Float.log fTrunc 200 ([%s] : List Int) (%d))" % (", ".join("(%d)" % v for v in keys), q), ins, str))
+    def resampled(tr):
+        return " ".join("%s,%s,%s,%s" % (pf(o.position.E), pf(o.position.N), pf(o.position.U), stamp(o.timestamp).replace(" ", ":")) for o in tr.getObsList())
+    rs, rt, pts_ = getattr(IP, "__resampleSpatial"), getattr(IP, "__resampleTemporal"), IP.prepareTimeSampling
+    for _ in range(n):
+        tr, recs = mk_track(rng.randint(0, 6), pause=rng.random() < 0.3)
+        ds_ = rng.choice([1.0, 5.0, 0.5, 13.0, rng.uniform(0.5, 40), 0.0, -3.0])
+        def f_rs(tr=tr, ds_=ds_):
+            t2 = tr.copy(); rs(t2, ds_); return t2
+        tests.append(("__resampleSpatial", "rtrack (Gen.Interpolation.resampleSpatial FT.sqrt FT.pow fTrunc 1000 %s %s)" % (ltrack(recs), lf(ds_)), f_rs, resampled))
+        tr, recs = mk_track(rng.randint(0, 6), sorted_t=rng.random() < 0.85, pause=rng.random() < 0.3)
+        dt_ = rng.choice([1.0, 2.0, 0.5, 7.0, rng.uniform(0.3, 20)])
+        def f_rt(tr=tr, ref=dt_):
+            t2 = tr.copy(); rt(t2, ref); return t2
+        tests.append(("__resampleTemporal(number)", "rtrack (Gen.Interpolation.resampleTemporal_number 100000 %s %s)" % (ltrack(recs), lf(dt_)), f_rt, resampled))
+        t0 = recs[0][3] if recs else 0.0
+        inst = [t0 + rng.choice([rng.uniform(-5, 60), float(rng.randint(0, 40))]) for _ in range(rng.randint(0, 5))]
+        def f_rl(tr=tr, inst=inst):
+            t2 = tr.copy(); rt(t2, [ObsTime.readUnixTime(v) for v in inst]); return t2
+        inst_abs = [ObsTime.readUnixTime(v).toAbsTime() for v in inst]
+        tests.append(("__resampleTemporal(list)", "rtrack (Gen.Interpolation.resampleTemporal_list 100000 %s %s)" % (ltrack(recs), lflist(inst_abs)), f_rl, resampled))
+        tr2, recs2 = mk_track(rng.randint(0, 5))
+        def f_rk(tr=tr, tr2=tr2):
+            t2 = tr.copy(); rt(t2, tr2); return t2
+        tests.append(("__resampleTemporal(track)", "rtrack (Gen.Interpolation.resampleTemporal_track 100000 %s %s)" % (ltrack(recs), ltrack(recs2)), f_rk, resampled))
+        a0, b0 = rng.uniform(0, 100), rng.uniform(0, 200)
+        tests.append(("prepareTimeSampling(number)", "rl (Gen.Interpolation.prepareTimeSampling_number 100000 %s %s %s)" % (lf(dt_), lf(a0), lf(a0 + b0)),
+                      lambda dt_=dt_, a0=a0, b0=b0: pts_(dt_, a0, a0 + b0), lambda v: " ".join(pf(t) for t in v)))
 
 
 def main():
@@ -110,8 +250,10 @@ def main():
         dX, dY = rng.choice([0.0, 1.0, 0.5, 2.0, abs(fin())]), rng.choice([1.0, 0.5, 0.0, 3.0, abs(fin())])
         cx = rng.choice([xmin, xmax, rng.uniform(xmin - 1, xmax + 1), xmin + dX * rng.randint(0, 5)])
         cy = rng.choice([ymin, ymax, rng.uniform(ymin - 1, ymax + 1), ymin + dY * rng.randint(0, 5)])
-        si = NS(xmin=xmin, xmax=xmax, ymin=ymin, ymax=ymax, dX=dX, dY=dY)
-        tests.append(("SpatialIndex.__getCell", "ro2 (Gen.SpatialIndex.SpatialIndex_getCell %s)" % " ".join(lf(t) for t in (xmin, xmax, ymin, ymax, dX, dY, cx, cy)),
+        csz, lsz = rng.randint(1, 8), rng.randint(1, 8)
+        si = NS(xmin=xmin, xmax=xmax, ymin=ymin, ymax=ymax, dX=dX, dY=dY, csize=csz, lsize=lsz)
+        tests.append(("SpatialIndex.__getCell", "ro2 (Gen.SpatialIndex.SpatialIndex_getCell %s (%d) (%d) %s)" % (
+                      " ".join(lf(t) for t in (xmin, xmax, ymin, ymax, dX, dY)), csz, lsz, " ".join(lf(t) for t in (cx, cy))),
                       lambda si=si, cx=cx, cy=cy: SpatialIndex._SpatialIndex__getCell(si, ENUCoords(cx, cy)),
                       lambda v: "none" if v is None else pf(v[0]) + " " + pf(v[1])))
         dist = abs(fin())
@@ -147,14 +289,16 @@ def main():
                       lambda a3=a3, b3=b3: ENUCoords(*a3) - ENUCoords(*b3), lambda v: f3(v, "ENU")))
         yr = rng.choice([rng.randint(-50, 2500), rng.choice([1900, 2000, 2100, 1600, 4, 100, 400, 0])])
         tests.append(("isLeapYear", "rb (Gen.ObsTime.isLeapYear (%d))" % yr, lambda yr=yr: ObsTime.isLeapYear(yr), lambda v: "true" if v else "false"))
-    src = PRE + "".join("#eval IO.println (%s)\n" % t[1] for t in tests)
+    more_tests(a, rng, tests, NS)
+    src = PRE + "".join("#eval IO.println (\"@\" ++ (%s))\n" % t[1] for t in tests)
     path = os.path.join(LEAN, ".lake", "py2lean_selftest.lean")
     with open(path, "w") as fh:
         fh.write(src)
     p = subprocess.run(["lake", "env", "lean", path], cwd=LEAN, stdout=subprocess.PIPE, stderr=subprocess.STDOUT, text=True, timeout=900)
-    out = [l for l in p.stdout.split("\n") if l.strip()]
+    out = [l[1:] for l in p.stdout.split("\n") if l.startswith("@")]
     if p.returncode != 0 or len(out) != len(tests):
-        print("lean failed / unexpected output:\n" + p.stdout[-3000:])
+        print("lean failed / unexpected output (%d results for %d tests):\n" % (len(out), len(tests))
+              + "\n".join(l for l in p.stdout.split("\n") if not l.startswith("@"))[-3000:])
         return 2
     bad, per = 0, {}
     for (label, expr, thunk, fmt), got in zip(tests, out):
